@@ -464,6 +464,20 @@ def c_calls(calls):
     return clist(c_call(c) for c in calls)
 
 
+RP_MARK = '{| c_fn := "<repack flag set outside _io_call>"; c_writer := false; c_req := R; c_fails := false; c_repack := true |}'
+
+
+def c_calls_rp(rec, calls=None):
+    """the calls of one operation; when the operation set Workspace.repack in Python code outside any _io_call (concatenated
+    attributes edited in memory) a pseudo reader call carries the flag into the model"""
+    calls = rec.get("calls", []) if calls is None else calls
+    items = [c_call(c) for c in calls]
+    if (rec.get("repack_after") and not rec.get("repack_before") and not any(len(c) > 6 and c[6] for c in calls)
+            and rec.get("exc") is None and rec.get("handle_after") not in (None, "closed")):
+        items.append(RP_MARK)
+    return clist(items)
+
+
 def c_sites(calls):
     seen, out = set(), []
     for c in calls:                       # every distinct (site, routine, mode) once
@@ -502,7 +516,7 @@ def op_term(op, rec):
             return "(OpenM None)"
         if op["owner"] == "Workspace" and m in ("save", "save_as"):
             return "SaveAs"
-        return f"(Calls {c_calls(calls)})"
+        return f"(Calls {c_calls_rp(rec, calls)})"
     if k == "list":
         return f"(List_ {cnat(rec.get('dead', 0))})"
     if k == "close":
